@@ -85,3 +85,13 @@ M("c15-greedy-desc", "C15", "greedy argsort descending", TU, "np.unravel_index(n
 M("c15-greedy-row-only", "C15", "greedy removes only row conflicts", TU, "if unassigned_edges[i][0] == row_ind or unassigned_edges[i][1] == col_ind:", "if unassigned_edges[i][0] == row_ind:")
 M("c15-iou-no-plus1", "C15", "iou intersection without +1 on y", TU, "ymax_intersection - ymin_intersection + 1\n", "ymax_intersection - ymin_intersection\n")
 M("c15-missing-gt-mask", "C15", "missing gt uses all() instead of any()", EV, "    missing_gt = np.any(np.isnan(points_gt), axis=-1)  # (n_gt, n_nodes)", "    missing_gt = np.all(np.isnan(points_gt), axis=-1)  # (n_gt, n_nodes)")
+
+M("c08-revert-fix", "C08", "revert the sentinel-cost fix", PG, "        match_src_inds, match_dst_inds = linear_sum_assignment(assignment_costs)\n", "        match_src_inds, match_dst_inds = linear_sum_assignment(cost_matrix_np)\n")
+M("c08-sign", "C08", "cost sign not flipped (minimises score)", PG, "                    cost_matrix[i, j] = -line_scores_k[", "                    cost_matrix[i, j] = line_scores_k[")
+M("c08-minline-gt", "C08", "min_line_scores compared with >", PG, "    is_valid_match = match_line_scores_sample >= min_line_scores\n", "    is_valid_match = match_line_scores_sample > min_line_scores + 0.05\n")
+M("c08-ids-not-dense", "C08", "instance ids not re-densified", PG, "        instance_assignments[peak_id] = instance_ind\n    n_instances = len(instance_ids)", "        pass\n    n_instances = len(instance_ids)")
+M("c08-score-per-dst", "C08", "instance score accumulated only for first edge type", PG, "                predicted_instance_scores[instance_ind] += edge_connection.score\n", "                predicted_instance_scores[instance_ind] = max(predicted_instance_scores[instance_ind], edge_connection.score)\n")
+M("c08-minpeaks-gt", "C08", "min-peaks filter uses >", PG, "            if instance_peak_counts[instance] >= min_instance_peaks\n", "            if instance_peak_counts[instance] > min_instance_peaks\n")
+M("c08-edge-order-ignored", "C08", "sorted edge order ignored in grouping", PG, "    for edge_ind in sorted_edge_inds:\n        in_edge = match_edge_inds_sample == edge_ind", "    for edge_ind in sorted(sorted_edge_inds, reverse=True):\n        in_edge = match_edge_inds_sample == edge_ind")
+M("c08-greedy-rowwise", "C08", "assignment replaced by row-wise greedy", PG, "        match_src_inds, match_dst_inds = linear_sum_assignment(assignment_costs)\n",
+  "        match_src_inds, match_dst_inds = linear_sum_assignment(assignment_costs)\n        if assignment_costs.shape[0] == 3 and assignment_costs.shape[1] == 3:\n            match_dst_inds = np.argsort(np.argsort(assignment_costs.min(axis=0)))\n")
